@@ -109,11 +109,11 @@ func genQ(g *vlib.G) {
 		{n: 2, directed: true}, {n: 3, directed: true},
 		{n: 2, directed: true, weighted: true}, {n: 3, directed: true, weighted: true},
 		{n: 4, directed: true},
-		{n: 5, weighted: true, stride: vlib.Pick(g, 199, 7), offset: 7},
-		{n: 4, directed: true, weighted: true, stride: vlib.Pick(g, 1999, 61), offset: 13},
+		{n: 5, weighted: true, stride: vlib.Pick(g, 199, 1), offset: vlib.Pick(g, 7, 0), rotate: true},
+		{n: 4, directed: true, weighted: true, stride: vlib.Pick(g, 1999, 13), offset: 6},
 	}
 	for _, s := range spaces {
-		forGraphs(s, s.stride <= 1, func(key string, mk func() *built) {
+		forGraphs(s, s.stride <= 1 && !s.rotate, func(key string, mk func() *built) {
 			g.Case(key, func(t *vlib.T) { checkQ(t, mk()) })
 		})
 		if g.Stopped() {
@@ -306,12 +306,12 @@ func genQMultiplex(g *vlib.G) {
 		{graphSpace{n: 2}, 1, 0}, {graphSpace{n: 3}, 1, 0},
 		{graphSpace{n: 2, weighted: true}, 1, 0},
 		{graphSpace{n: 3, weighted: true}, vlib.Pick(g, 3, 1), vlib.Pick(g, 1, 0)},
-		{graphSpace{n: 4}, vlib.Pick(g, 11, 1), vlib.Pick(g, 4, 0)},
+		{graphSpace{n: 4}, vlib.Pick(g, 3, 1), vlib.Pick(g, 1, 0)},
 		{graphSpace{n: 2, directed: true}, 1, 0},
 		{graphSpace{n: 2, directed: true, weighted: true}, 1, 0},
 		{graphSpace{n: 3, directed: true}, vlib.Pick(g, 5, 1), vlib.Pick(g, 2, 0)},
-		{graphSpace{n: 3, directed: true, weighted: true}, vlib.Pick(g, 1009, 53), 17},
-		{graphSpace{n: 4, weighted: true}, vlib.Pick(g, 4001, 211), 101},
+		{graphSpace{n: 3, directed: true, weighted: true}, vlib.Pick(g, 499, 29), 17},
+		{graphSpace{n: 4, weighted: true}, vlib.Pick(g, 1999, 101), 101},
 	} {
 		x := x
 		forLayerPairs(x.s, x.stride, x.offset, func(key string, i0, i1, idKind, order int) {
@@ -881,17 +881,17 @@ func genLouvain(g *vlib.G) {
 		{graphSpace{n: 0}, 2, 0}, {graphSpace{n: 1}, 2, 0}, {graphSpace{n: 2}, 2, 0}, {graphSpace{n: 3}, 2, 0}, {graphSpace{n: 4}, 2, 0},
 		{graphSpace{n: 2, weighted: true}, 2, 0}, {graphSpace{n: 3, weighted: true}, 2, 0},
 		{graphSpace{n: 4, weighted: true}, 2, 0},
-		{graphSpace{n: 5, stride: vlib.Pick(g, 2, 1), offset: vlib.Pick(g, 1, 0)}, 2, 4000},
+		{graphSpace{n: 5, rotate: !g.Thorough()}, 2, 4000},
 		{graphSpace{n: 0, directed: true}, 2, 0}, {graphSpace{n: 1, directed: true}, 2, 0},
 		{graphSpace{n: 2, directed: true}, 2, 0}, {graphSpace{n: 3, directed: true}, 2, 0},
 		{graphSpace{n: 2, directed: true, weighted: true}, 2, 0}, {graphSpace{n: 3, directed: true, weighted: true}, 2, 0},
-		{graphSpace{n: 4, directed: true, stride: vlib.Pick(g, 4, 1), offset: vlib.Pick(g, 1, 0)}, 2, 4000},
-		{graphSpace{n: 5, weighted: true, stride: vlib.Pick(g, 499, 41), offset: 19}, vlib.Pick(g, 1, 2), 4000},
-		{graphSpace{n: 4, directed: true, weighted: true, stride: vlib.Pick(g, 4999, 367), offset: 100}, vlib.Pick(g, 1, 2), 4000},
+		{graphSpace{n: 4, directed: true, stride: vlib.Pick(g, 2, 1), offset: vlib.Pick(g, 1, 0), rotate: true}, 2, 4000},
+		{graphSpace{n: 5, weighted: true, stride: vlib.Pick(g, 499, 11), offset: 8}, vlib.Pick(g, 1, 2), 4000},
+		{graphSpace{n: 4, directed: true, weighted: true, stride: vlib.Pick(g, 4999, 101), offset: 100}, vlib.Pick(g, 1, 2), 4000},
 	}
 	for _, x := range spaces {
 		x := x
-		forGraphs(x.s, x.s.stride <= 1, func(key string, mk func() *built) {
+		forGraphs(x.s, x.s.stride <= 1 && !x.s.rotate, func(key string, mk func() *built) {
 			g.Case(key, func(t *vlib.T) { checkLouvain(t, mk(), x.maxDev, x.maxRuns) })
 		})
 		if g.Stopped() {
@@ -953,10 +953,10 @@ func genLouvainMultiplex(g *vlib.G) {
 		{graphSpace{n: 2}, 1, 0, 2, 0},
 		{graphSpace{n: 3}, 1, 0, 2, 0},
 		{graphSpace{n: 3, weighted: true}, vlib.Pick(g, 5, 1), vlib.Pick(g, 3, 0), vlib.Pick(g, 1, 2), 0},
-		{graphSpace{n: 4}, vlib.Pick(g, 7, 1), vlib.Pick(g, 5, 0), vlib.Pick(g, 1, 2), 3000},
+		{graphSpace{n: 4}, vlib.Pick(g, 3, 1), vlib.Pick(g, 2, 0), vlib.Pick(g, 1, 2), 3000},
 		{graphSpace{n: 2, directed: true}, 1, 0, 2, 0},
 		{graphSpace{n: 2, directed: true, weighted: true}, 1, 0, 2, 0},
-		{graphSpace{n: 3, directed: true}, vlib.Pick(g, 5, 1), vlib.Pick(g, 4, 0), vlib.Pick(g, 1, 2), 3000},
+		{graphSpace{n: 3, directed: true}, vlib.Pick(g, 2, 1), vlib.Pick(g, 1, 0), vlib.Pick(g, 1, 2), 3000},
 		{graphSpace{n: 3, directed: true, weighted: true}, vlib.Pick(g, 1009, 211), 31, 1, 3000},
 	} {
 		x := x
